@@ -26,4 +26,64 @@ theorem within_reports_the_distance (d : ℝ) (hd : 0 ≤ d) : GenRs.kd_within_d
   show Real.sqrt (d * d) = d
   exact Real.sqrt_mul_self hd
 
+/-! ### `Mesh::sample_uniform`: the cumulative-area table (regenerated loop).  The POSITION of an entry in the table is
+used as the id of the face the sample lands on, so the table has to have exactly one entry per face, in face order. -/
+
+/-- one step of the loop, as regenerated -/
+def areaStep : ℝ × List ℝ → ℝ → ℝ × List ℝ :=
+  fun (total_area, cumulative_areas) tri => (let total_area := (total_area + tri); (let cumulative_areas := cumulative_areas ++ [total_area]; (total_area, cumulative_areas)))
+
+theorem area_table_unfold (areas : List ℝ) : GenRs.area_table areas = (List.foldl areaStep (0, []) areas).2 := rfl
+
+theorem area_fold_length (xs : List ℝ) : ∀ (t : ℝ) (acc : List ℝ),
+    (List.foldl areaStep (t, acc) xs).2.length = acc.length + xs.length := by
+  induction xs with
+  | nil => intro t acc; simp
+  | cons x r ih =>
+    intro t acc
+    simp only [List.foldl_cons]
+    have : areaStep (t, acc) x = (t + x, acc ++ [t + x]) := rfl
+    rw [this, ih]; simp; omega
+
+theorem area_fold_sorted (xs : List ℝ) (hx : ∀ x ∈ xs, 0 ≤ x) : ∀ (t : ℝ) (acc : List ℝ),
+    acc.Pairwise (· ≤ ·) → (∀ a ∈ acc, a ≤ t) →
+    (List.foldl areaStep (t, acc) xs).2.Pairwise (· ≤ ·) ∧
+    (∀ a ∈ (List.foldl areaStep (t, acc) xs).2, a ≤ (List.foldl areaStep (t, acc) xs).1) ∧
+    t ≤ (List.foldl areaStep (t, acc) xs).1 := by
+  induction xs with
+  | nil => intro t acc h1 h2; exact ⟨h1, h2, le_refl t⟩
+  | cons x r ih =>
+    intro t acc h1 h2
+    simp only [List.foldl_cons]
+    have e : areaStep (t, acc) x = (t + x, acc ++ [t + x]) := rfl
+    rw [e]
+    have hx0 : 0 ≤ x := hx x (by simp)
+    have hr : ∀ y ∈ r, 0 ≤ y := fun y hy => hx y (by simp [hy])
+    have p1 : (acc ++ [t + x]).Pairwise (· ≤ ·) := by
+      rw [List.pairwise_append]
+      refine ⟨h1, by simp, ?_⟩
+      intro a ha b hb
+      simp at hb; rw [hb]; linarith [h2 a ha]
+    have p2 : ∀ a ∈ acc ++ [t + x], a ≤ t + x := by
+      intro a ha
+      rcases List.mem_append.mp ha with ha | ha
+      · linarith [h2 a ha]
+      · simp at ha; rw [ha]
+    obtain ⟨q1, q2, q3⟩ := ih hr (t + x) (acc ++ [t + x]) p1 p2
+    exact ⟨q1, q2, by linarith⟩
+
+/-- **one entry per face, in face order** — whatever the areas are (a face of zero area gets an entry too, equal to the
+    one before it): the position in the table is the face id -/
+theorem area_table_one_entry_per_face (areas : List ℝ) : (GenRs.area_table areas).length = areas.length := by
+  rw [area_table_unfold, area_fold_length]; simp
+
+/-- for non-negative areas the table is non-decreasing (what the binary search over it assumes) -/
+theorem area_table_non_decreasing (areas : List ℝ) (h : ∀ x ∈ areas, 0 ≤ x) :
+    (GenRs.area_table areas).Pairwise (· ≤ ·) := by
+  rw [area_table_unfold]
+  exact (area_fold_sorted areas h 0 [] (by simp) (by simp)).1
+
+example : GenRs.area_table [2, 0, (3 : ℝ)] = [2, 2, 5] := by
+  rw [area_table_unfold]; norm_num [List.foldl, areaStep]
+
 end C15U
